@@ -454,7 +454,9 @@ class MarkdownNormalizer(Renderer):
         # Don't add prefix to empty lines to avoid trailing whitespace.
         # Use rstrip() to preserve structural prefixes like ">" for blockquotes.
         empty_line_prefix = self._second_prefix.rstrip()
-        for line in code_content.splitlines():
+        # Only "\n" ends a code line: `str.splitlines()` would also break at form feeds, U+2028 and
+        # other separators inside the code, and a fragment could then look like a closing fence.
+        for line in code_content.split("\n") if code_content else []:
             if line:
                 lines.append(f"{self._second_prefix}{line}")
             else:
